@@ -58,6 +58,9 @@ package httpcache
 //@   assigns map(stored.Data.Header), now
 //@   ensures result0 == stored.Data && result1 == nil                              # name: returns-stored
 //@   ensures upstreamCalls == old(upstreamCalls)                                    # name: no-upstream
+//@   ensures exists n int :: hget(result0.Header, "Age") == itoa(n) && n >= secsOf(old(fAge(freshness, now)))        # name: age-generated   props: C11
+//@   ensures freshness.Age.Value < freshness.UsefulLife ==> statusIs(result0.Header, "HIT", true)                   # name: hit-when-fresh   props: C11
+//@   ensures freshness.Age.Value >= freshness.UsefulLife ==> statusIs(result0.Header, "STALE", true)                # name: stale-when-expired   props: C11
 
 // The background revalidation contacts the origin: it must never be started for an
 // only-if-cached request (C18). Its body (goroutine, channel, select) is outside the
@@ -70,16 +73,18 @@ package httpcache
 //@   assigns *
 
 //@ func (*transport).handleStaleWhileRevalidate
-//@   property C01 C02 C18 C20
-//@   requires wired(r) && req != nil && stored != nil && stored.Data != nil && stored.Data.Header != nil && freshness != nil
+//@   property C01 C02 C18 C20 C11
+//@   requires wired(r) && req != nil && stored != nil && stored.Data != nil && stored.Data.Header != nil && freshness != nil && freshness.Age != nil
 //@   requires !reqOIC(req)                                                 # name: not-only-if-cached   props: C18
 //@   assigns *
-//@   ensures result0 == stored.Data && result1 == nil                              # name: returns-stored
+//@   ensures result0 == old(stored.Data) && result1 == nil                         # name: returns-stored
 //@   ensures upstreamCalls == old(upstreamCalls)                                    # name: no-upstream-in-foreground
 //@   ensures result0 != nil                                                         # name: non-nil
+//@   ensures exists n int :: hget(result0.Header, "Age") == itoa(n) && n >= secsOf(old(fAge(freshness, now)))        # name: age-generated   props: C11
+//@   ensures statusIs(result0.Header, "STALE", true)                                                                # name: stale-marked   props: C11
 
 //@ func (*transport).handleCacheHit
-//@   property C01 C02 C18 C06
+//@   property C01 C02 C18 C06 C11
 //@   requires wired(r) && req != nil && req.URL != nil && stored != nil && stored.Data != nil && stored.Data.Header != nil
 //@   requires req.Method == "GET" && hget(req.Header, "Range") == ""                       # name: plain-get   props: C06
 //@   let tq = old(ccText(req.Header))
@@ -100,12 +105,16 @@ package httpcache
 //@   ensures served ==> !hq["no-cache"]                                                  # name: request-no-cache-validated    props: C02
 //@   ensures served ==> !(ccValidA(hq, vq, "max-age") && A0 > ccDurA(vq, "max-age") && !maxStaleOK(A0, Lreq, hq, vq))   # name: request-max-age-validated   props: C02
 //@   ensures hq["only-if-cached"] ==> upstreamCalls == old(upstreamCalls)                # name: only-if-cached-no-network     props: C18
+//@   ensures served ==> (exists n int :: hget(result0.Header, "Age") == itoa(n) && n >= secsOf(A0))               # name: age-not-under-reported   props: C11
+//@   ensures served ==> (statusIs(result0.Header, "HIT", true) || statusIs(result0.Header, "STALE", true)) && (cstatus(result0.Header) == "HIT" ==> A0 < Lresp)   # name: hit-or-stale-truthful   props: C11
+//@   ensures result0 != nil && upstreamCalls == old(upstreamCalls) && result0 != old(stored.Data) ==> result0.StatusCode == 504 && statusIs(result0.Header, "BYPASS", false)   # name: synthesised-504-marked   props: C11
+//@   ensures result0 != nil && upstreamCalls != old(upstreamCalls) ==> (result0 == old(stored.Data) && (statusIs(result0.Header, "REVALIDATED", true) || statusIs(result0.Header, "STALE", true))) || (result0 != old(stored.Data) && (cstatus(result0.Header) == "MISS" || cstatus(result0.Header) == "BYPASS") && len(get(result0.Header, "X-Httpcache-Status")) == 1 && !has(result0.Header, "X-From-Cache"))   # name: validated-reply-marked   props: C11
 //@   ensures (result0 != nil) != (result1 != nil)                                        # name: result-shape   props: C10
 
 //@ spec func reqOIC(req *http.Request) bool = dirsHas(ccText(req.Header))["only-if-cached"]
 
 //@ func (*transport).handleCacheMiss
-//@   property C18 C10 C06
+//@   property C18 C10 C06 C11
 //@   requires wired(r) && req != nil
 //@   requires req.Method == "GET" && hget(req.Header, "Range") == ""                       # name: plain-get   props: C06
 //@   assigns *
@@ -114,18 +123,24 @@ package httpcache
 //@   ensures !old(reqOIC(req)) ==> upstreamCalls == old(upstreamCalls) + 1                 # name: one-upstream-call
 //@   ensures result1 != nil ==> lastUpstreamFailed                                         # name: error-only-from-origin   props: C10
 //@   ensures result0 != nil ==> result0.Header != nil                                      # name: header-non-nil
+//@   ensures result0 != nil ==> (cstatus(result0.Header) == "MISS" || cstatus(result0.Header) == "BYPASS")   # name: origin-reply-marked   props: C11
+//@   ensures result0 != nil ==> len(get(result0.Header, "X-Httpcache-Status")) == 1                            # name: single-status-value   props: C11
+//@   ensures result0 != nil ==> !has(result0.Header, "X-From-Cache")                                           # name: no-legacy-flag   props: C11
 
 //@ func (*transport).handleUnrecognizedMethod
-//@   property C18 C10 C07
+//@   property C18 C10 C07 C11
 //@   requires wired(r) && req != nil && req.URL != nil
 //@   assigns *
 //@   ensures (result0 != nil) != (result1 != nil)                                          # name: result-shape   props: C10
 //@   ensures old(reqOIC(req)) ==> upstreamCalls == old(upstreamCalls)                      # name: only-if-cached-no-network   props: C18
 //@   ensures result1 != nil ==> lastUpstreamFailed                                         # name: error-only-from-origin   props: C10
+//@   ensures result0 != nil ==> statusIs(result0.Header, "BYPASS", false)                  # name: bypass-marked   props: C11
 
 //@ func (*transport).RoundTrip
-//@   property C18 C10 C06 C03
+//@   property C18 C10 C06 C03 C11
 //@   requires wired(r) && req != nil && req.URL != nil
 //@   assigns *
 //@   ensures (result0 != nil) != (result1 != nil)                                          # name: result-shape   props: C10
 //@   ensures old(reqOIC(req)) ==> upstreamCalls == old(upstreamCalls)                      # name: only-if-cached-no-network   props: C18
+//@   ensures result0 != nil ==> result0.Header != nil && len(get(result0.Header, "X-Httpcache-Status")) == 1 && (cstatus(result0.Header) == "HIT" || cstatus(result0.Header) == "STALE" || cstatus(result0.Header) == "REVALIDATED" || cstatus(result0.Header) == "MISS" || cstatus(result0.Header) == "BYPASS")   # name: exactly-one-status   props: C11
+//@   ensures result0 != nil ==> ((hget(result0.Header, "X-From-Cache") == "1") == (cstatus(result0.Header) == "HIT" || cstatus(result0.Header) == "STALE" || cstatus(result0.Header) == "REVALIDATED")) && (cstatus(result0.Header) == "MISS" || cstatus(result0.Header) == "BYPASS" ==> !has(result0.Header, "X-From-Cache"))   # name: legacy-flag-exact   props: C11
